@@ -90,7 +90,25 @@ def matrix():
         for r in rows:
             f.write('| ' + ' | '.join(str(x) for x in r) + ' |\n')
     print(open(f'{V}/seeded/MATRIX.md').read())
-if sys.argv[1] == 'matrix':
+def table():
+    """Write seeded/MATRIX.md from the results already recorded in the meta.json files (no run)."""
+    import glob
+    rows = []
+    for d in sorted(glob.glob(f'{V}/seeded/*/*/meta.json'), key=lambda p: (p.split('/')[-3], int(p.split('/')[-2][1:]))):
+        spec = '/'.join(d.split('/')[-3:-1])
+        m = json.load(open(d))
+        r = m.get('check_results', {}).get(spec.split('/')[0] + ':quick', {})
+        kinds = 'concrete input' if any(l.startswith('VIOLATION') and 'no-failing-input-found' not in l for l in r.get('lines', [])) else \
+            ('no-failing-input-found' if any(l.startswith('VIOLATION') for l in r.get('lines', [])) else ('caught by a sibling check only' if m.get('caught_by') else 'MISSED'))
+        rows.append((spec, ', '.join(m.get('files', [])), ', '.join(m.get('caught_by', [])) or '-', kinds, r.get('wall')))
+    with open(f'{V}/seeded/MATRIX.md', 'w') as f:
+        f.write('| seeded change | files | caught by (quick) | how | wall s |\n|---|---|---|---|---|\n')
+        for r in rows:
+            f.write('| ' + ' | '.join(str(x) for x in r) + ' |\n')
+    print(len(rows), 'rows;', sum(1 for r in rows if r[3] == 'MISSED'), 'missed;', sum(1 for r in rows if r[3] == 'concrete input'), 'concrete')
+if sys.argv[1] == 'table':
+    table()
+elif sys.argv[1] == 'matrix':
     matrix()
 elif sys.argv[1] == 'confirm':
     confirm(sys.argv[2], sys.argv[3], sys.argv[4] if len(sys.argv) > 4 else 'm1')
